@@ -171,8 +171,17 @@ class S:
     def groupby(self, by):
         return _GB(self, by)
 
+    def to_numpy(self):
+        """the values without the index: grouping / comparing by them is positional"""
+        return _Values(("values", self.term))
+
     def __repr__(self):
         return f"S{self.term}"
+
+
+class _Values:
+    def __init__(self, term):
+        self.term = term
 
 
 class _GB:
